@@ -220,6 +220,22 @@ RoundTripOK(x) ==
 RoundTripInv == (m.phase = "done" /\ InDomain(m.ty, m.v)) => RoundTripOK(m)
 
 (***************************************************************************)
+(* 4b. Decoding into a target that is not fresh.  A decoder is a function   *)
+(*     of the document alone: the value denoted after decoding document d  *)
+(*     is Denote(d), independent of what the target held before (a variable *)
+(*     reused in a decode loop, a field decoded twice, the old elements of  *)
+(*     a slice that encoding/json reuses).  tgt is the FULL structural      *)
+(*     state of the one reused target - every field, also Value under       *)
+(*     Exists = false and the fields of constructors that are not selected. *)
+(*     Denote(d) is what the decoder makes of d in a fresh target.          *)
+(***************************************************************************)
+VARIABLE tgt
+FreshTarget == "fresh"
+\* den / denok: Denote(d) and whether d is decodable at all; ok / after: what happened with the reused target
+DecodeInto(denok, den, ok, after) == tgt' = after /\ ok = denok /\ (ok => after = den)
+ReuseOK(denok, den, ok, after)    == ok = denok /\ (ok => after = den)
+
+(***************************************************************************)
 (* 5.  Documents that were not produced by this run of the encoder (mutated,*)
 (*     truncated, wrong kind, out of range).  The loose reading of the      *)
 (*     simple forms (a canonical decimal numeral, bare or in quotes, denotes*)
@@ -395,6 +411,14 @@ MutBaseCls(ty) ==
     [] ty.t = "account"      -> {"wc-2147483648:count", "wc0:ones"}
     [] ty.t \in BodyFamilies -> {"Empty", "Unknown:noop:leaf0", "Unknown:op:refs"}
     [] ty.t = "maybe"        -> {"absent"} \cup { StrCat("present(", StrCat(c, ")")) : c \in MutBaseCls(ty.of) }
+
+\* class values decoded one after the other into one reused target: every ordered pair of different classes
+RECURSIVE SeqCls(_)
+SeqCls(ty) == CASE ty.t \in IntFamilies -> MutBaseCls(ty) \cup {"zeros"}
+                [] ty.t = "maybe"       -> {"absent"} \cup { StrCat("present(", StrCat(c, ")")) : c \in SeqCls(ty.of) }
+                [] OTHER                -> MutBaseCls(ty)
+SeqPairs(ty) == LET cs == { c \in Classes(ty) : c.cls \in SeqCls(ty) }
+                IN  { p \in cs \X cs : p[1].cls # p[2].cls }
 
 \* canonical spellings (only to produce documents and model-level leads; the encoders are free to differ)
 Quote(codes)   == <<34>> \o codes \o <<34>>
